@@ -10,6 +10,7 @@ import (
 	"fmt"
 	"io"
 	"math"
+	"reflect"
 
 	"gorgonia.org/tensor"
 )
@@ -74,6 +75,10 @@ func (s Shape) String() string {
 }
 
 var ErrInvalidType = errors.New("invalid type")
+
+// ErrInvalidTensor is returned when the payload of a TensorProto does not
+// match its declared dimensions.
+var ErrInvalidTensor = errors.New("invalid tensor")
 
 // Dim is a dimension.
 type Dim struct {
@@ -210,7 +215,23 @@ func TensorFromProto(tp *TensorProto) (tensor.Tensor, error) {
 		return nil, err
 	}
 
-	return tensor.New(tensor.WithShape(getDims(tp)...), tensor.WithBacking(values)), nil
+	dims := getDims(tp)
+
+	nExpected := 1
+
+	for _, dim := range dims {
+		if dim <= 0 || nExpected > math.MaxInt/dim {
+			return nil, fmt.Errorf("%w: unsupported dimensions %v", ErrInvalidTensor, dims)
+		}
+
+		nExpected *= dim
+	}
+
+	if nValues := reflect.ValueOf(values).Len(); nValues != nExpected {
+		return nil, fmt.Errorf("%w: dimensions %v require %d values, got %d", ErrInvalidTensor, dims, nExpected, nValues)
+	}
+
+	return tensor.New(tensor.WithShape(dims...), tensor.WithBacking(values)), nil
 }
 
 func getFloatData(tp *TensorProto) ([]float32, error) {
